@@ -46,7 +46,6 @@ Skip == /\ l <= Len(Trace) /\ Trace[l].ev = "step" /\ skip
 
 -----------------------------------------------------------------------------
 \* (R)
-Obs(e) == [ph |-> e.ph, ret |-> e.ret, running |-> ToSet(e.running)]
 AllIdle(e) == \A p \in DOMAIN e.ph : e.ph[p] = "idle"
 
 \* why an observation is outside the admissible set A; who = offending goroutine (0: none)
@@ -61,7 +60,6 @@ Diagnose(e, A) ==
      ELSE IF rtn # {} THEN [why |-> "return", who |-> pick(rtn)]
      ELSE IF val # {} THEN [why |-> "value", who |-> pick(val)]
      ELSE IF stk # {} THEN [why |-> "stuck", who |-> pick(stk)]
-     ELSE IF \A s \in A : s.running # ToSet(e.running) THEN [why |-> "running", who |-> 0]
      ELSE [why |-> "state", who |-> 0]
 
 Step ==
@@ -70,14 +68,17 @@ Step ==
          o == [k |-> e.k, n |-> e.n]
          can == \A s \in cur : IF e.c = "start" THEN CanStart(s, e.p) ELSE CanExit(s, e.p)
          A == UNION {Settle(IF e.c = "start" THEN Start(s, e.p, o) ELSE Exit(s, e.p), FALSE) : s \in cur}
-         M == {s \in A : Proj(s) = Obs(e)}
+         \* goroutine phases and return values decide; m.running is compared afterwards
+         M == {s \in A : Proj(s).ph = e.ph /\ Proj(s).ret = e.ret}
      IN IF cur = {} \/ ~can
         THEN Reject("driver", e.p, "command not applicable") /\ skip' = TRUE /\ cur' = cur
         ELSE IF M = {}
         THEN LET d == Diagnose(e, A) IN
              Reject(d.why, d.who, {Proj(s) : s \in A}) /\ skip' = TRUE /\ cur' = cur
         ELSE IF AllIdle(e) /\ e.probe # "free"
-        THEN Reject("leak", e.p, "indexMu and runningMu free, running empty") /\ skip' = TRUE /\ cur' = M
+        THEN Reject("leak", e.p, "indexMu can be locked when nothing runs") /\ skip' = TRUE /\ cur' = M
+        ELSE IF \A s \in M : s.running # ToSet(e.running)
+        THEN Reject("running", 0, {s.running : s \in M}) /\ skip' = FALSE /\ cur' = M
         ELSE skip' = FALSE /\ cur' = M
   /\ l' = l + 1 /\ UNCHANGED <<done, active, open, lastEnd, lastSeq>>
 
